@@ -31,9 +31,9 @@ Techniques (DESIGN 2b):
 * presence match: R-C14-1g (the TimeSeries.pattern_name setter contains an add_usage and a remove_usage call; registry, key and order
   are not examined).
 * R-C14-5 (views): single-return accessors by AST pattern; the typed generators are run by the local evaluator GenEval (sa/peval subclass) once
-  per concrete type argument -- T3, exhaustive over that finite domain.  Its adjacency clause is a TEXT match: the substring
-  `self._node_reg.get_usage(node_name)` in get_links_for_node, `.nodes()` / `.links()` in to_graph; nothing is validated against the link's
-  end nodes here (that fixture evaluation lives in C01, R-C01-2).
+  per concrete type argument -- T3, exhaustive over that finite domain.  Its adjacency clause is the interpreted edit history shared with C01
+  (R-C01-2b: get_links_for_node on the fixture model after reversing / moving / self-looping / removing and re-adding links); `.nodes()` / `.links()`
+  in to_graph is still a text match.
 """
 import ast
 from ..src import (walk, calls, call_name, last_attr, dotted, norm, loc, const, AnchorError,
@@ -1299,8 +1299,9 @@ def run(repo, chk):
     # adjacency view
     fn = repo.func(MODEL, "WaterNetworkModel.get_links_for_node")
     chk.fn(fn)
-    src = unparse(fn)
-    chk.expect("self._node_reg.get_usage(node_name)" in src, "R-C14-5", "get_links_for_node reads the node registry's usage of that node", loc(fn))
+    # decided by running the view on the fixture model under an edit history (no text match): the answers follow the links' current end nodes
+    from ._shared import adjacency_history_rules
+    adjacency_history_rules(repo, chk, "R-C14-5")
     lt = None
     for n in walk(fn):
         if isinstance(n, ast.Assign) and isinstance(n.value, (ast.Set, ast.List, ast.Tuple)) and dotted(n.targets[0]) == "link_types":
